@@ -13,3 +13,12 @@ H("c07_hist_meter", "C07", "seq", ["harness/c07_histogram.cc"], sdk=_C07_SDK, cx
        "every way over three collection cycles, every schedule of which reader collects after which cycle; "
        "each collected point against the reference histogram of the values that reader is due",
   design_ref="5/C07")
+
+# ABI v2 adds the two Record overloads without an explicit Context (own copies of the value guard): the meter seam compiled a second
+# time with the ABI macro redefined, the overloads rotating with the value index
+H("c07_hist_meter_abi2", "C07", "seq", ["harness/c07_histogram.cc"], sdk=_C07_SDK,
+  cxxflags=["-fno-access-control", "-UOPENTELEMETRY_ABI_VERSION_NO", "-DOPENTELEMETRY_ABI_VERSION_NO=2"],
+  args={"quick": ["--seam=meter", "--n=2", "--alphabet=core", "--viewn=1"], "thorough": ["--seam=meter", "--n=3", "--alphabet=core", "--viewn=2"]},
+  what="ABI v2 build of the meter seam: all four Record overloads of the UInt64 / Double histogram instruments (with / without attributes, with / without an explicit Context) "
+       "rotate with the value index; same reference",
+  design_ref="5/C07")
